@@ -2,7 +2,9 @@ package adapt
 
 import (
 	"context"
+	"errors"
 	"github.com/aws/aws-sdk-go/aws"
+	"github.com/aws/aws-sdk-go/aws/awserr"
 	v1ddb "github.com/aws/aws-sdk-go/service/dynamodb"
 	v1client "github.com/truora/minidyn/aws-v1/client"
 	"sync/atomic"
@@ -220,7 +222,13 @@ func (c *V1) Do(op Op) (out Outcome) {
 	}()
 	fin := func(err error) Outcome {
 		cls, msg := ClassifyErr(err)
-		return Outcome{Class: cls, Msg: msg}
+		o := Outcome{Class: cls, Msg: msg}
+		switch cls {
+		case ClsValidation, ClsCondFailed, ClsNotFound, ClsInUse, ClsInternal:
+			var api awserr.Error
+			o.ErrNotAPI = !errors.As(err, &api)
+		}
+		return o
 	}
 	if op.DoneCtx != "" {
 		ctx, cancel := DoneContext(op.DoneCtx)
